@@ -290,13 +290,10 @@ func judge(s *scen, evs []ev, pr *probe) ([]finding, *census) {
 			// a listened first; it must have decided to stop before b's listen succeeded
 			stillServing := a.Stop > b.Listen || (a.Stop < 0 && pr.Alive[a.Pid])
 			if stillServing {
-				both := a.DBSeen && a.DBErr == nil && b.DBSeen && b.DBErr == nil
-				if both {
-					add("c2:two-daemons-own-db", "daemons %d and %d both opened the database and serve at the same time", a.Pid, b.Pid)
-				} else {
-					add("c2:two-daemons-listening", "daemon %d (inode %d, db err %s) was still serving when daemon %d (inode %d, db err %s) started listening on the same path",
-						a.Pid, a.Ino, str(a.DBErr), b.Pid, b.Ino, str(b.DBErr))
-				}
+				// (whether the second one also gets the database only depends on
+				// when the first one lets go of the bbolt lock)
+				add("c2:two-daemons-listening", "daemon %d (inode %d, db err %s) was still serving when daemon %d (inode %d, db err %s) started listening on the same path",
+					a.Pid, a.Ino, str(a.DBErr), b.Pid, b.Ino, str(b.DBErr))
 			}
 		}
 	}
